@@ -36,6 +36,8 @@ type c13query struct {
 	pg       bool
 	expect   string
 	expectFn func() []string // the same, computed from the document
+	// edit: the thread edits the rows it was given (top-level keys only: a result belongs to its caller)
+	edit bool
 }
 
 var c13Queries = []c13query{
@@ -69,6 +71,9 @@ var c13Queries = []c13query{
 	{name: "reads-recent", sql: "SELECT id FROM recent", expect: ""},
 	// a CTE read through a path selector: its body is evaluated while the selector is being walked
 	{name: "cte-through-path", sql: "WITH big AS (SELECT id, items FROM t WHERE a > 0) SELECT q FROM `big.items`"},
+	// the caller works on its result while other queries read the document the rows came from
+	{name: "star-result-edited", sql: "SELECT * FROM t", edit: true},
+	{name: "derived-star-result-edited", sql: "SELECT * FROM (SELECT * FROM t WHERE a > 0) d", edit: true},
 	// one statement text, two readings: with the dialect option "a" is a column, without it a string
 	{name: "dquote-pg", sql: "SELECT \"a\" AS x FROM t", pg: true, expect: `{"x":1};{"x":2}`},
 	{name: "dquote-plain", sql: "SELECT \"a\" AS x FROM t", expect: `{"x":"a"};{"x":"a"}`},
@@ -279,6 +284,7 @@ func (p *c13) RunCase(i int) *core.CaseResult {
 		}
 	}
 	outs := make([]*gq.Out, n)
+	before := make([][]any, n)
 	cfg := vrt.Config{Sched: true}
 	outcomes := map[string]bool{}
 	run := func(prefix []int32) *vrt.Result {
@@ -299,6 +305,7 @@ func (p *c13) RunCase(i int) *core.CaseResult {
 		}
 		for k := range outs {
 			outs[k] = &gq.Out{}
+			before[k] = nil
 		}
 		optss := make([][]genql.QueryOption, n)
 		for k := range optss {
@@ -311,7 +318,18 @@ func (p *c13) RunCase(i int) *core.CaseResult {
 			}
 			for k := 0; k < n; k++ {
 				k := k
-				vrt.Go(func() { gq.Call(outs[k], docs[k], sqls[k], optss[k]...) })
+				vrt.Go(func() {
+					gq.Call(outs[k], docs[k], sqls[k], optss[k]...)
+					if c13Queries[c.qs[k]].edit && outs[k].Err == nil && outs[k].Panic == "" {
+						before[k] = gq.Clone(outs[k].Rows).([]any)
+						for _, row := range outs[k].Rows {
+							if m, ok := row.(map[string]any); ok {
+								m["id"] = "edited"
+								m["\x00added"] = float64(k)
+							}
+						}
+					}
+				})
 			}
 		})
 		return res
@@ -331,6 +349,9 @@ func (p *c13) RunCase(i int) *core.CaseResult {
 				continue
 			}
 			got := gq.RenderRows(o.Rows)
+			if before[k] != nil {
+				got = gq.RenderRows(before[k]) // as returned, before the thread edited its rows
+			}
 			if o.Err != nil {
 				got = []string{"error"}
 			}
@@ -393,7 +414,7 @@ func (p *c13) RunCase(i int) *core.CaseResult {
 
 func (p *c13) Meta() core.Meta {
 	return core.Meta{
-		Rule: "one case per harness: 1 query alone (internal parallelism), or every unordered pair (thorough: also triples over a 7-query subset) of 24 queries, plus 8 single-only harnesses (ASYNC in a nested FROM with several inner arrays, ASYNC / SPINASYNC readers and writers of the variable store next to SETVAR / GETVAR, ASYNC inside a row-scoped subquery and inside a CTE read twice) (filter, projection, fresh path selector, group-by, joins incl. PARALLEL hash and nested, ASYNC, SPINASYNC, CTE, IN-subquery, EXISTS, ORDER BY+DISTINCT, SETVAR/GETVAR, UNION and JOIN USING with the same text in every thread, GETVAR / SETVAR built without any option, one statement text with and without PostgresEscapingDialect) x {separate documents, one shared document} x {cold selector cache, warm cache}; each case = stateless exploration of every interleaving with <= 2 (thorough 3) preemptions at sync-operation granularity of the real engine under the -race build; oracle per schedule: no new race report, no deadlock / goroutine panic (scheduler), every thread's result equals its solo result. non-trivial = more than one schedule executed",
+		Rule: "one case per harness: 1 query alone (internal parallelism), or every unordered pair (thorough: also triples over a 7-query subset) of 26 queries, plus 8 single-only harnesses (ASYNC in a nested FROM with several inner arrays, ASYNC / SPINASYNC readers and writers of the variable store next to SETVAR / GETVAR, ASYNC inside a row-scoped subquery and inside a CTE read twice) (filter, projection, fresh path selector, group-by, joins incl. PARALLEL hash and nested, ASYNC, SPINASYNC, CTE, IN-subquery, EXISTS, ORDER BY+DISTINCT, SETVAR/GETVAR, UNION and JOIN USING with the same text in every thread, GETVAR / SETVAR built without any option, one statement text with and without PostgresEscapingDialect) x {separate documents, one shared document} x {cold selector cache, warm cache}; each case = stateless exploration of every interleaving with <= 2 (thorough 3) preemptions at sync-operation granularity of the real engine under the -race build; oracle per schedule: no new race report, no deadlock / goroutine panic (scheduler), every thread's result equals its solo result. non-trivial = more than one schedule executed",
 		Assumptions: []string{
 			"scheduling points at every Mutex/RWMutex/WaitGroup operation, go statement, thread exit and harness yield; unsynchronised accesses are covered by the happens-before race monitor on each explored schedule (DRF-SC)",
 			"the race detector reports each distinct race (stack pair) once per worker process; a report is attributed to the first case of that worker that exhibits it",
